@@ -4,6 +4,7 @@ CONSTANTS
   Rows <- RowsA
   Atoms <- AtomsA
   MaxLevel = 1
+  WithPairs = FALSE
   ReasonBug = FALSE
 INVARIANT RowsEquivalent
 INVARIANT BasicDisjoint
